@@ -12,3 +12,8 @@ func verifSem(s *ResourceSemaphore, ev string, n int64) {}
 func verifSlot(s *MaxJobsSemaphore, ev string, md *Metadata) {}
 
 func verifProc(md *Metadata, ev string, cmd interface{}) {}
+
+func verifLocalJob(*LocalJobManager, string, []string, map[string]string, *Metadata,
+	*JobResources, string, string, bool) bool {
+	return false
+}
